@@ -27,8 +27,12 @@
 #if !defined(C20_NO_WB) && defined(__has_include)
 #if __has_include("scheduler_common.h")
 #include "scheduler_common.h"      // whitebox, statistics only: raw value of suspend_point_type::m_stack_state at the resume call
+#if __has_include("governor.h") && __has_include("thread_data.h")
 #include "governor.h"              // whitebox: is the current task dispatcher at its outermost level?  (see peek_outermost)
 #include "thread_data.h"
+#else
+namespace tbb { namespace detail { namespace r1 { class governor; } } }
+#endif
 #define C20_WB 1
 #endif
 #endif
@@ -132,7 +136,11 @@ static std::vector<Waiting> waiting;             // nested waits (N / F ops) in 
 // 1 = the calling thread's current task dispatcher is at its outermost level (no dispatch loop below the caller on this stack): a suspension made
 // now is the kind the library hands back to its owner.  A task_arena::execute functor is at that level only if execute() found a free slot at
 // once; otherwise it is wrapped into a delegated task and runs inside a dispatch loop, even when the calling thread ends up running it itself.
-static int peek_outermost() { tbb::detail::r1::thread_data* td = tbb::detail::r1::governor::get_thread_data_if_initialized(); return (td && td->my_task_dispatcher) ? (td->my_task_dispatcher->m_properties.outermost ? 1 : 0) : -1; }
+// (SFINAE: if a changed tree renames these internals the peek reports "unknown" and the owner-recall oracle is simply not applied)
+template <class G> static auto peek_outermost_impl(G*, int) -> decltype((bool)G::get_thread_data_if_initialized()->my_task_dispatcher->m_properties.outermost, 0) {
+    auto* td = G::get_thread_data_if_initialized(); return (td && td->my_task_dispatcher) ? (td->my_task_dispatcher->m_properties.outermost ? 1 : 0) : -1; }
+template <class G> static int peek_outermost_impl(G*, long) { return -1; }
+static int peek_outermost() { return peek_outermost_impl((tbb::detail::r1::governor*)nullptr, 0); }
 template <class S> static auto peek_state(S* sp, int) -> decltype((int)sp->m_stack_state.a.load(std::memory_order_relaxed)) { return (int)sp->m_stack_state.a.load(std::memory_order_relaxed); }
 template <class S> static int peek_state(S*, long) { return -1; }
 #else
